@@ -5,6 +5,7 @@ filter blocks, Macro._invoke / _async_invoke, BlockReference, TemplateModule.__h
 their content in Markup exactly when autoescaping is on - statically decided or selected at
 run time; every run-time selector tests ``context.eval_ctx.autoescape``; printed
 expressions are wrapped once by the selected escaping call.
+Also: the sandboxed str.format wrapper returns type(f_self)(...).  
 Not decided: output equality over all programs.
 """
 
